@@ -93,14 +93,16 @@ CLAIMED = {
         "limit, follow / no-follow of the last component) and the code's (`cwalk` / `cres` / `presented`: resolveTraceePathOnce, the 40 rounds "
         "and the final Clean of resolveTraceePath, absPath / absPathAt base selection).  Theorems: C02_presented_path (for EVERY forest, base "
         "directory and pathname, if the kernel's resolution succeeds the presented path is the object it reaches - by induction on the "
-        "number of links with a simulation lemma per walk), C02_presented_path_nofollow_partial + C02_nofollow_refuted (known finding), "
+        "number of links with a simulation lemma per walk), C02_presented_path_proc + C02_proc_special_ok (the same with /proc/self and "
+        "/proc/thread-self, links whose target depends on the reader, for which the code substitutes the tracee's entries), C02_presented_path_nofollow_partial + C02_nofollow_refuted (known finding), "
         "C02_handle_table_abi (argument positions and classes of all 30 rows of Handle = the ABI table), C02_open_class (all flag words: an "
         "open that can create / truncate / write is a write), C02_openat2_failclosed, C02_fdcwd_any_encoding, "
         "C02_dirfd_upper_half_ignored.  Tie on every run: 10 forests on disk x 260 really traced path syscalls with exact register values "
         "(all 26 calls of this architecture, dirfd sign- / zero-extended / garbage upper half, descriptor-relative, after chdir / fchdir, "
         "/proc/self aliases, 43-link chains, loops, dangling links); three-way comparison in Coq of the handler's question, the kernel's own "
         "resolution reported by the program (O_PATH + /proc/self/fd) and the model; classes against class_of (handle_table ..).",
-   note="Partial: /proc magic links are outside the forest model (compared code-against-kernel only); the rows stat64 / lstat64 / fstatat / "
+   note="Partial: of the /proc magic links, self / thread-self and the root links are in the forest model, cwd / fd links are compared "
+        "code-against-kernel only; the rows stat64 / lstat64 / fstatat / "
         "fstatat64 of Handle cannot occur on x86-64 and are covered by the table theorem only; reading the pathname from tracee memory is C15's "
         "GetString.  Trusted: Coq kernel + vm_compute; the kernel's resolution is an assumption validated on every run.",
    technique="Coq proof by induction (simulation of the kernel's path walk by the code's, for all forests and pathnames) + three-way differential runs through a real tracer",
